@@ -111,6 +111,7 @@ class World:
         st = self.store
         st.trace, st.events = [], []
         st.fail_at = op.get("fault")
+        st.fault_type = op.get("fault_type")
         try:
             o = self._step(op)
         finally:
